@@ -71,6 +71,9 @@ func init() {
 		"(encoding/binary.littleEndian).Uint64":    specLEGet(8),
 		"strings.HasPrefix": specBytesHasPrefix,
 		"errors.Join":       specErrorsJoin,
+		"io.ReadFull":       specIOReadFull,
+		"io.CopyN":          specIOCopyN,
+		"(io.Reader).Read":  specIORead,
 		"slices.SortFunc":   specSlicesSortFunc,
 		"strings.Compare":   specBytesCompare,
 		"cmp.Compare":       specCmpCompare,
@@ -718,4 +721,95 @@ func specCmpCompare(env *Env, recv *Val, args []Val, st *State, call *ast.CallEx
 		return specBytesCompare(env, recv, args, st, call)
 	}
 	return intVal(ite(app("<", a.T, b.T), "(- 1)", ite(app(">", a.T, b.T), "1", "0")))
+}
+
+// ---- io model. A reader is a byte string `data` and a position `pos` (ghost fields of the
+// io.Reader interface value); reads consume bytes from pos. Assumed contracts of the library.
+func readerState(env *Env, st *State, r Val) (dataKey, posKey, data, pos, bs string) {
+	is := env.sortOf(r.Ty)
+	bs = env.sortOf(types.NewSlice(tByte))
+	dataKey, posKey = is+".$data", is+".$pos"
+	hd := env.heapTermK(st, dataKey, is, bs)
+	hp := env.heapTermK(st, posKey, is, "Int")
+	data, pos = app("select", hd, r.T), app("select", hp, r.T)
+	st.assumeOnce(and(app("<=", "0", pos), app("<=", pos, app("len_"+bs, data))))
+	env.c.trust("io model: a reader is a byte string and a position (ghost fields data, pos); ReadFull/Read/CopyN consume from pos; a Read returns at least one byte when one is available")
+	return
+}
+
+func ioErr(c *Ctx, name string) string {
+	g := "|glob:io." + name + "|"
+	c.decls.declConst(g, "Int")
+	c.declSentinel(g)
+	return g
+}
+
+func specIOReadFull(env *Env, recv *Val, args []Val, st *State, call *ast.CallExpr) Val {
+	c := env.c
+	r, buf := args[0], args[1]
+	_, posKey, data, pos, bs := readerState(env, st, r)
+	env.rangeAssume(st, buf)
+	n := app("len_"+bs, buf.T)
+	avail := app("-", app("len_"+bs, data), pos)
+	enough := app(">=", avail, n)
+	// buffer contents afterwards
+	arr := c.fresh("readbuf", "(Array Int Int)")
+	j := c.freshBound("j")
+	st.assume(fmt.Sprintf("(forall ((%s Int)) (! (=> (and (<= 0 %s) (< %s %s) (< %s %s)) (= (select %s %s) (select (arr_%s %s) (+ %s %s)))) :pattern ((select %s %s))))",
+		j, j, j, n, j, avail, arr, j, bs, data, pos, j, arr, j))
+	st.assume(fmt.Sprintf("(forall ((%s Int)) (! (and (<= 0 (select %s %s)) (<= (select %s %s) 255)) :pattern ((select %s %s))))", j, arr, j, arr, j, arr, j))
+	if !env.contract && len(call.Args) >= 2 {
+		c.assignSliceTarget(env, call.Args[1], Val{T: app("mk_"+bs, arr, n), Ty: buf.Ty}, st)
+	}
+	is := env.sortOf(r.Ty)
+	hp := st.heap[posKey]
+	got := ite(enough, n, avail)
+	st.heap[posKey] = app("store", hp, r.T, app("+", pos, got))
+	_ = is
+	errv := c.fresh("readerr", "Int")
+	eof, ueof := ioErr(c, "EOF"), ioErr(c, "ErrUnexpectedEOF")
+	st.assume(ite(enough, eq(errv, "0"), ite(eq(avail, "0"), eq(errv, eof), eq(errv, ueof))))
+	return Val{Tuple: []Val{{T: got, Ty: tInt}, {T: errv, Ty: types.Universe.Lookup("error").Type()}}}
+}
+
+func specIORead(env *Env, recv *Val, args []Val, st *State, call *ast.CallExpr) Val {
+	c := env.c
+	r, buf := *recv, args[0]
+	_, posKey, data, pos, bs := readerState(env, st, r)
+	env.rangeAssume(st, buf)
+	ln := app("len_"+bs, buf.T)
+	avail := app("-", app("len_"+bs, data), pos)
+	n := c.fresh("nread", "Int")
+	errv := c.fresh("readerr", "Int")
+	eof := ioErr(c, "EOF")
+	st.assume(and(app("<=", "0", n), app("<=", n, ln), app("<=", n, avail)))
+	st.assume(implies(and(app(">", avail, "0"), app(">", ln, "0")), and(app(">=", n, "1"), eq(errv, "0"))))
+	st.assume(implies(eq(avail, "0"), and(eq(n, "0"), implies(app(">", ln, "0"), eq(errv, eof)))))
+	st.assume(app(">=", errv, "0"))
+	arr := c.fresh("readbuf", "(Array Int Int)")
+	j := c.freshBound("j")
+	st.assume(fmt.Sprintf("(forall ((%s Int)) (! (= (select %s %s) (ite (and (<= 0 %s) (< %s %s)) (select (arr_%s %s) (+ %s %s)) (select (arr_%s %s) %s))) :pattern ((select %s %s))))",
+		j, arr, j, j, j, n, bs, data, pos, j, bs, buf.T, j, arr, j))
+	if !env.contract {
+		if sel, ok := unparen(call.Fun).(*ast.SelectorExpr); ok && len(call.Args) >= 1 {
+			_ = sel
+			c.assignSliceTarget(env, call.Args[0], Val{T: app("mk_"+bs, arr, ln), Ty: buf.Ty}, st)
+		}
+	}
+	st.heap[posKey] = app("store", st.heap[posKey], r.T, app("+", pos, n))
+	return Val{Tuple: []Val{{T: n, Ty: tInt}, {T: errv, Ty: types.Universe.Lookup("error").Type()}}}
+}
+
+func specIOCopyN(env *Env, recv *Val, args []Val, st *State, call *ast.CallExpr) Val {
+	c := env.c
+	// io.CopyN(dst, src, n): only the effect on the source reader is modelled (dst is io.Discard here)
+	r, n := args[1], args[2]
+	_, posKey, data, pos, bs := readerState(env, st, r)
+	avail := app("-", app("len_"+bs, data), pos)
+	enough := app(">=", avail, n.T)
+	got := ite(enough, ite(app(">=", n.T, "0"), n.T, "0"), avail)
+	st.heap[posKey] = app("store", st.heap[posKey], r.T, app("+", pos, got))
+	errv := c.fresh("copyerr", "Int")
+	st.assume(ite(enough, eq(errv, "0"), eq(errv, ioErr(c, "EOF"))))
+	return Val{Tuple: []Val{{T: got, Ty: types.Typ[types.Int64]}, {T: errv, Ty: types.Universe.Lookup("error").Type()}}}
 }
